@@ -223,6 +223,11 @@ func cmdCheck(args []string) int {
 				if phase1 && len(j.unit.VC.Splits) > 0 && j.obl.Kind != "split" && j.obl.Kind != "cover" {
 					to = 3
 				}
+				if j.obl.Cover && *tier != "thorough" && to > 40 {
+					// reachability probes only guard against vacuity; an undecided probe is reported as
+					// such (never as a violation), so the quick tier does not wait long for them
+					to = 40
+				}
 				tag := j.obl.Name
 				if j.cs != "" {
 					tag += "/" + j.cs
@@ -426,6 +431,21 @@ func cmdCheck(args []string) int {
 		failed = append(failed, map[string]interface{}{"obligation": name, "status": r.Status, "verdict": verdict})
 	}
 
+	// open findings of this property whose obligation was not generated in this tier (unit deferred
+	// to the thorough tier): still listed, so that every run names every recorded finding
+	if *only == "" && *match == "" {
+		ran := map[string]bool{}
+		for _, r := range results {
+			ran[strings.TrimSuffix(r.Obl.Name, "!known")] = true
+		}
+		for i := range known {
+			kf := &known[i]
+			if kf.Status == "open" && kf.Property == *prop && !ran[kf.Obligation] && !printedKnown[kf.Obligation] {
+				fmt.Printf("KNOWN-FINDING: property=%s %s: %s [obligation is generated in the thorough tier only]\n", *prop, kf.Obligation, kf.What)
+				printedKnown[kf.Obligation] = true
+			}
+		}
+	}
 	wall := time.Since(start).Seconds()
 	// evidence
 	var funcs, lemmas, trustedUnits, bounded []string
